@@ -119,6 +119,23 @@ VARIANTS = [
     {"name": "R2 async handler awaited inline", "file": EVENTS, "expect": "C07.R2",
      "old": "                create_logged_task(_run_handler_wrapper(), self.name, LOG)\n",
      "new": "                asyncio.ensure_future(_run_handler_wrapper())\n"},
+    {"name": "R2 one-shot removal only after the sync handler returned", "expect": "C07.R2",
+     "edits": [{"file": EVENTS, "old": "            if one_shot:\n" + _ONE_SHOT_TRY,
+                "new": "            if one_shot and asyncio.iscoroutinefunction(handler):\n" + _ONE_SHOT_TRY},
+               {"file": EVENTS, "old": "                    if handler(args, *inner_args, **kwargs) and not one_shot:\n"
+                                       "                        self.unsubscribe(handler, *inner_args, **kwargs)\n",
+                "new": "                    done = handler(args, *inner_args, **kwargs)\n"
+                       "                    if done or one_shot:\n"
+                       "                        self.unsubscribe(handler, *inner_args, **kwargs)\n"}]},
+    {"name": "P R2 loop over a local snapshot of the subscriber list", "file": EVENTS, "expect": "silent",
+     "old": "        for handler in self.subscribers[:]:\n",
+     "new": "        snapshot = list(self.subscribers)\n        for handler in snapshot:\n"},
+    {"name": "R1 hot-reload bookkeeping deletes an mtime that may be gone", "file": ADDONS, "expect": "C07.R1",
+     "old": "                    if importer in cls.FILE_MTIMES:\n                        del cls.FILE_MTIMES[importer]\n",
+     "new": "                    del cls.FILE_MTIMES[importer]\n"},
+    {"name": "P R1 hot-reload bookkeeping pops with a default", "file": ADDONS, "expect": "silent",
+     "old": "                    if importer in cls.FILE_MTIMES:\n                        del cls.FILE_MTIMES[importer]\n",
+     "new": "                    cls.FILE_MTIMES.pop(importer, None)\n"},
     {"name": "P R2 rename unpacked locals", "expect": "silent",
      "edits": [{"file": EVENTS, "old": "inner_args", "new": "sub_args", "all": True}]},
     {"name": "P R2 one-shot unsubscribe under a catch-all", "file": EVENTS, "expect": "silent",
